@@ -56,14 +56,14 @@ def plan(tier, seed):
     cfgs = [c for c in CONFIGS if c["name"] in ("default", "hashseed4242", "LC_ALL=C", "-I", "stdout-ascii", "pre-reverse-order",
                                                 "pre-hashes-backends", "cwd=nonascii", "stdout-utf16", "warnings-error-UserWarning", "pre-strictwarnings")] if q else CONFIGS
     for c in cfgs:
-        s = {"kind": "corpus", "config": c["name"], "pool_seed": seed * 31 + 7, "calls": 160 if q else 600, "seed": seed}
+        s = {"kind": "corpus", "config": c["name"], "pool_seed": seed * 31 + 7, "calls": 160 if q else 600, "seed": seed, "seed_fixed": True}
         for k in ("hashseed", "env", "cwd", "pyargs", "stdout_encoding", "preimport", "setlocale"):
             if k in c:
                 s[k] = c[k]
         specs.append(s)
     for i in range(4 if q else 24):
         specs.append({"kind": "corpus", "config": "fresh-process-%d" % i, "pool_seed": seed * 31 + 7, "calls": 160 if q else 600,
-                      "seed": seed, "only": i, "of": 4 if q else 24})
+                      "seed": seed, "seed_fixed": True, "only": i, "of": 4 if q else 24})
     return specs
 
 
